@@ -25,9 +25,9 @@ var c07Widths = []reflect.Type{model.TInt8, model.TUint16, model.TF32, model.TF6
 
 func c07Shapes(tier string) [][]int {
 	if tier == "thorough" {
-		return [][]int{{4}, {3, 1}, {1, 3}, {2, 3}, {2, 3, 2}, {2, 2, 3, 2}, {1, 1}, {3, 1, 2}}
+		return [][]int{{4}, {3, 1}, {1, 3}, {2, 3}, {2, 3, 2}, {2, 2, 3, 2}, {1, 1}, {1}, {3, 1, 2}}
 	}
-	return [][]int{{4}, {2, 3}, {2, 3, 2}, {1, 1}}
+	return [][]int{{4}, {2, 3}, {2, 3, 2}, {1, 1}, {1}}
 }
 
 var c07ArithModes = []string{"safe", "unsafe", "reuse", "incr", "reuseA", "reuseB"}
@@ -72,7 +72,7 @@ func c07Eq(sp ewSpec) func(a, b interface{}) bool {
 }
 
 func c07Run(c *core.Ctx, family, op, mode string) {
-	lays := gen.RowLayouts
+	lays := gen.ElemLayouts
 	fullPairs := map[[2]string]bool{{gen.LC, gen.LC}: true, {gen.LT, gen.LC}: true, {gen.LS, gen.LSS}: true, {gen.LC, gen.LT}: true}
 	forms := []string{"TT", "TS", "ST"}
 	if family == "unary" {
